@@ -148,6 +148,8 @@ def check_C06(ctx):
         ctx.guard("C06.cards-to-class", R.premise_residual, ctx, fac, tabs[2], "C06.cards-to-class", "class")
     # six and seven cards: the reported rank is the rank of the best five-card hand they contain (C02's loop rule)
     R.check_bestof(ctx, "C06.bestof", R.NEED_MIN)
+    # the entry points that report a rank return for every hand of real cards
+    ctx.guard("C06.entry-no-panic", R.entry_totality, ctx, "C06.entry-no-panic", ((FIVE, 5), (SIX, 6), (SEVEN, 7)), fac)
 
 
 def cell_constants_loose(node, atom_name):
